@@ -102,7 +102,7 @@ class Workspace:
     def write_source(self, rel: str, text: str, mtime: int) -> None:
         p = os.path.join(self.root, rel)
         os.makedirs(os.path.dirname(p), exist_ok=True)
-        with open(p, 'w') as f:
+        with open(p, 'w', newline='') as f:
             f.write(text)
         os.utime(p, (mtime, mtime))
 
